@@ -1,8 +1,8 @@
 from common import COMMON_ASSUME
 
 _ASBUILT = [("D2", "number without format -> nil type"), ("D3", "array default"), ("D4", "formatted-string default"),
-            ("D5", "header declared in non-canonical case"), ("D22", "named-string formats always rejected"),
-            ("D23", "missing required file is 400"), ("D24", "named-string array items not format-checked")]
+            ("D5", "header declared in non-canonical case"), ("D31", "named-string formats always rejected"),
+            ("D32", "missing required file is 400"), ("D33", "named-string array items not format-checked")]
 
 PROP = dict(
     module="ParamBind",
